@@ -3,8 +3,8 @@ MUTANTS = [
     dict(name="null-discriminator-as-absent", file=CV, expect="R14.1",
          old="                if isinstance(data, dict) and metadata.property_name in data:", new="                if isinstance(data, dict) and data.get(metadata.property_name) is not None:"),
     dict(name="mapped-failure-retried", file=CV, expect="R14.1",
-         old='                        except Exception as e:\n                            # Provide clear error message for discriminated variant failure\n                            raise ValueError(',
-         new='                        except Exception as e:\n                            # Provide clear error message for discriminated variant failure\n                            _ignored = ('),
+         old='                            raise ValueError(\n                                f"Failed to deserialize as {variant.__name__} "\n                                f"(discriminator {metadata.property_name}={discriminator_value!r}): {e}"\n                            ) from e\n',
+         new='                            pass  # fall back to trying every variant\n'),
     dict(name="unmapped-value-guessed", file=CV, expect="R14.1",
          old='                        raise ValueError(\n                            f"Unknown discriminator value {discriminator_value!r} "', new='                        logger_unused = (\n                            f"Unknown discriminator value {discriminator_value!r} "'),
     dict(name="one-of-sorted-variants", file="types/resolvers/schema_resolver.py", expect="R14.3",
